@@ -1,11 +1,26 @@
 (* C08 A blocked receiver always wakes when a value or the end is available.
-   Proved here: adequacy of the wait condition (wait.rs check) as arithmetic, for all sequence numbers below 2^62:
-   it holds when no sender is left, when the awaited position is published in the slot, when the slot has moved
-   past the awaited position; it does not hold for a never-written slot or an older value while a sender lives
-   (so a waiter neither sleeps through its value nor spins on a fresh queue); and a blocked receive never runs
-   inside a task poll.  The pending-notification invariant is not proved (see MANIFEST level_note). *)
+   Proved here:
+   - adequacy of the wait condition (wait.rs check) as arithmetic, for all sequence numbers below 2^62: it holds
+     when no sender is left, when the awaited position is published in the slot, when the slot has moved past the
+     awaited position; it does not hold for a never-written slot or an older value while a sender lives;
+   - for the wait strategy with mutex and condition variable (BlockingWait), for all configurations, populations and
+     schedules with fewer than 2^62 handles: C08_no_lost_wakeup - whenever a consumer is asleep on the condition
+     variable (registered as a sleeper, not yet woken) and its wait condition holds on the current state of its slot
+     and of the writers count, some agent owes the notification: it has published a value or decremented the writers
+     count and is on its way to the notify call; C08_owed_notification_is_delivered - such an agent keeps owing it
+     across every step until it executes the notify step; C08_notify_wakes_every_sleeper - that step moves every
+     sleeper to the woken set; C08_wait_mutex_is_exclusive, C08_sleepers_are_at_the_wait - the wait mutex has one
+     holder, a sleeper or woken agent is at the condition-variable wait, a sleeper is not in the woken set;
+     C08_sleeper_runs_only_when_woken.  So no wake-up is lost: a state in which a consumer sleeps forever although
+     its value or the end is available would need a pending notifier that never runs, i.e. an unfair scheduler.
+   - the step facts of the protocol (WaitStep.v), also for the futures park lists (C14).
+   Not proved: the same composition for the spinning strategies (they re-check the condition themselves, there is
+   nothing to lose) and for the futures park lists (C14: known finding F14 lives there); fairness of the scheduler
+   and of the OS condition variable cannot be expressed. *)
 From Coq Require Import NArith List Bool.
-Require Import MQ.Arith64 MQ.Arith64Facts MQ.Types MQ.State MQ.Model MQ.Exec MQ.Reach.
+Require Import MQ.Arith64 MQ.Arith64Facts MQ.Types MQ.State MQ.Model MQ.Exec MQ.Reach MQ.Ctl MQ.RecvDefs MQ.InvReg MQ.WinDefs MQ.WinRun
+  MQ.WaitStep MQ.WakeDefs MQ.NpDefs MQ.WakeStepC MQ.InvWake.
+Import ListNotations.
 Open Scope N_scope.
 
 Theorem C08_released_when_no_sender : forall seq flag, wait_check seq flag 0 = true.
@@ -40,3 +55,87 @@ Print Assumptions C08_holds_on_older_value.
 Example C08_nonvacuous : wait_check 5 5 1 = true /\ wait_check 5 1 1 = false /\ wait_check 5 9 1 = true
   /\ wait_check 0 INITIAL_QUEUE_FLAG 1 = false.
 Proof. vm_compute. repeat split. Qed.
+
+(* ---- no wake-up of the blocking wait is lost ---- *)
+Theorem C08_no_lost_wakeup : forall c sf sy fut s t T,
+  c_wk c = WBlock sf sy -> mreach c fut s -> lenN (ags s) < B62 ->
+  In t (sleepers (sh s)) -> get (ags s) t = Some T -> wcond T (sh s) = true ->
+  exists n N, get (ags s) n = Some N /\ np N = true.
+Proof.
+  intros c sf sy fut s t T WB R SM IN ET WC.
+  destruct (wake_mreach c sf sy WB fut s R SM) as [_ _ _ WKE _]. exact (WKE t T IN ET WC).
+Qed.
+Check C08_no_lost_wakeup : forall c sf sy fut s t T,
+  c_wk c = WBlock sf sy -> mreach c fut s -> lenN (ags s) < B62 ->
+  In t (sleepers (sh s)) -> get (ags s) t = Some T -> wcond T (sh s) = true ->
+  exists n N, get (ags s) n = Some N /\ np N = true.
+Print Assumptions C08_no_lost_wakeup.
+
+Theorem C08_owed_notification_is_delivered : forall c me A S o,
+  micro c me A S = Some o -> ctl_ok A = true -> np A = true ->
+  np (o_a o) = true \/ a_pc A = N2 \/ (forall a b, c_wk c <> WBlock a b).
+Proof. exact micro_np. Qed.
+Check C08_owed_notification_is_delivered : forall c me A S o,
+  micro c me A S = Some o -> ctl_ok A = true -> np A = true ->
+  np (o_a o) = true \/ a_pc A = N2 \/ (forall a b, c_wk c <> WBlock a b).
+Print Assumptions C08_owed_notification_is_delivered.
+
+Theorem C08_notify_wakes_every_sleeper : forall c me A S o,
+  micro c me A S = Some o -> a_pc A = N2 ->
+  sleepers (o_s o) = [] /\ woken (o_s o) = woken S ++ sleepers S /\ bw_lock (o_s o) = None.
+Proof. exact w_N2. Qed.
+Check C08_notify_wakes_every_sleeper : forall c me A S o,
+  micro c me A S = Some o -> a_pc A = N2 ->
+  sleepers (o_s o) = [] /\ woken (o_s o) = woken S ++ sleepers S /\ bw_lock (o_s o) = None.
+Print Assumptions C08_notify_wakes_every_sleeper.
+
+Theorem C08_wait_mutex_is_exclusive : forall c sf sy fut s a A,
+  c_wk c = WBlock sf sy -> mreach c fut s -> lenN (ags s) < B62 ->
+  get (ags s) a = Some A -> holder A = true -> bw_lock (sh s) = Some a.
+Proof.
+  intros c sf sy fut s a A WB R SM EA HA.
+  destruct (wake_mreach c sf sy WB fut s R SM) as [LK _ _ _ _]. exact (LK a A EA HA).
+Qed.
+Check C08_wait_mutex_is_exclusive : forall c sf sy fut s a A,
+  c_wk c = WBlock sf sy -> mreach c fut s -> lenN (ags s) < B62 ->
+  get (ags s) a = Some A -> holder A = true -> bw_lock (sh s) = Some a.
+Print Assumptions C08_wait_mutex_is_exclusive.
+
+Theorem C08_sleepers_are_at_the_wait : forall c sf sy fut s t,
+  c_wk c = WBlock sf sy -> mreach c fut s -> lenN (ags s) < B62 ->
+  (In t (sleepers (sh s)) -> (exists T, get (ags s) t = Some T /\ a_pc T = B2w) /\ memN t (woken (sh s)) = false) /\
+  (In t (woken (sh s)) -> exists T, get (ags s) t = Some T /\ a_pc T = B2w).
+Proof.
+  intros c sf sy fut s t WB R SM.
+  destruct (wake_mreach c sf sy WB fut s R SM) as [_ SL WKN _ _]. split; [exact (SL t)|exact (WKN t)].
+Qed.
+Check C08_sleepers_are_at_the_wait : forall c sf sy fut s t,
+  c_wk c = WBlock sf sy -> mreach c fut s -> lenN (ags s) < B62 ->
+  (In t (sleepers (sh s)) -> (exists T, get (ags s) t = Some T /\ a_pc T = B2w) /\ memN t (woken (sh s)) = false) /\
+  (In t (woken (sh s)) -> exists T, get (ags s) t = Some T /\ a_pc T = B2w).
+Print Assumptions C08_sleepers_are_at_the_wait.
+
+Theorem C08_sleeper_runs_only_when_woken : forall me A S,
+  a_pc A = B2w -> enabled me A S = true -> memN me (woken S) = true /\ bw_lock S = None.
+Proof. exact w_B2w_enabled. Qed.
+Check C08_sleeper_runs_only_when_woken : forall me A S,
+  a_pc A = B2w -> enabled me A S = true -> memN me (woken S) = true /\ bw_lock S = None.
+Print Assumptions C08_sleeper_runs_only_when_woken.
+
+(* non-vacuity: consumer 1 sleeps on an empty queue; producer 0 publishes a value and has not notified yet *)
+Example C08_wakeup_witness :
+  let c := mk_cfg MPMC 2 (WBlock 0 0) in
+  exists s T P, mreach c false s /\ lenN (ags s) < B62 /\ c_wk c = WBlock 0 0 /\
+    sleepers (sh s) = [1] /\ get (ags s) 1 = Some T /\ wcond T (sh s) = true /\
+    get (ags s) 0 = Some P /\ np P = true /\ a_pc P = TSdone.
+Proof.
+  cbv zeta.
+  destruct (m_run true (mk_cfg MPMC 2 (WBlock 0 0)) (init false)
+              [MBegin 1 CRecv; MSteps 1 18; MBegin 0 (CTrySend 5); MSteps 0 9]) as [s|] eqn:E;
+    [|vm_compute in E; discriminate E].
+  destruct (get (ags s) 1) as [T|] eqn:ET; [|vm_compute in E; injection E as <-; vm_compute in ET; discriminate ET].
+  destruct (get (ags s) 0) as [P|] eqn:EP; [|vm_compute in E; injection E as <-; vm_compute in EP; discriminate EP].
+  exists s, T, P. split; [apply mreachN_mreach; eapply m_run_sound; [apply mrn_init|exact E]|].
+  vm_compute in E. injection E as <-. vm_compute in ET. injection ET as <-. vm_compute in EP. injection EP as <-.
+  vm_compute. repeat split; intros X; discriminate X.
+Qed.
